@@ -235,7 +235,7 @@ def run_real(spec):
         return res
 
     try:
-        res = run_with_watchdog(case, budget_s=25, what=f"real server {spec['kind']}", signature=['hang', spec['kind']])
+        res = run_with_watchdog(case, budget_s=20, what=f"real server {spec['kind']}", signature=['hang', spec['kind']])
     finally:
         reap_children()
     if spec['kind'] == 'init_fault':
